@@ -400,7 +400,7 @@ theorem linv_startTask {s0 : State} {x : Acc} {w : Nat} {rest : List Nat} (hx : 
       have hst : r.state ≠ .completing := by simpa using hc
       have hs1 : ∀ s1 : State, acc s1 = acc s0 →
           LInv (acc (setWorker (setState (modAux s1 r.id fun a => { a with started := true, task := some w }) r.id .running) w
-            fun x => { x with phase := .started, parkF := r.cfg.parkFinish })) := by
+            fun x => { x with phase := .started, parkF := r.cfg.parkFinish, inc := r.inc })) := by
         intro s1 h1
         rw [acc_setWorker_kind _ w _ .mid (fun _ => rfl), hid,
           acc_startRun_core s1 wk.id w (p := r.peer) (st := r.state) (t := r.aux.task)
@@ -602,25 +602,31 @@ theorem hi_handle {s : State} {m : Msg} {rest : List Msg} (hi : LInv (acc s)) (h
       rw [e1, e2]
     refine ⟨linv_finishTask hi hf h0 hp0 err, pu_of_none ?_⟩
     exact park_none_of_tos (tos_finishTask _ w err) hp0
-  | closeNetErr id pub =>
-    have h0 := acc_pop_other (m := .closeNetErr id pub) hm rfl (by intros; simp) (by intros; simp)
+  | closeNetErr id inc pub =>
+    have h0 := acc_pop_other (m := .closeNetErr id inc pub) hm rfl (by intros; simp) (by intros; simp)
     have hi0 : LInv (acc { s with mailbox := rest, handled := s.handled + 1 }) := by rw [h0]; exact hi
-    show LInv (acc (clearPubWait (abortRequest _ id .network).1 pub)) ∧ PU (clearPubWait (abortRequest _ id .network).1 pub)
-    exact ⟨linv_abortRequest hi0 hp0 id .network, pu_of_none (park_abortRequest hp0 id .network)⟩
-  | terminate id pub =>
-    have h0 := acc_pop_other (m := .terminate id pub) hm rfl (by intros; simp) (by intros; simp)
+    rw [handle_closeNetErr]
+    split
+    · split
+      · exact ⟨linv_abortRequest hi0 hp0 id .network, pu_of_none (park_abortRequest hp0 id .network)⟩
+      · exact ⟨linv_abortRequest hi0 hp0 id .network, pu_of_none (park_abortRequest hp0 id .network)⟩
+    · exact ⟨hi0, pu_of_none hp0⟩
+  | terminate id inc pub =>
+    have h0 := acc_pop_other (m := .terminate id inc pub) hm rfl (by intros; simp) (by intros; simp)
     have hi0 : LInv (acc { s with mailbox := rest, handled := s.handled + 1 }) := by rw [h0]; exact hi
-    show LInv (acc (clearPubWait (terminate _ id) pub)) ∧ PU (clearPubWait (terminate _ id) pub)
-    refine ⟨linv_terminate hi0 hp0 id, pu_of_none ?_⟩
-    show (terminate _ id).park = none
-    rw [park_terminate]; exact hp0
+    rw [handle_terminate]
+    split
+    · refine ⟨linv_terminate hi0 hp0 id, pu_of_none ?_⟩
+      show (terminate _ id).park = none
+      rw [park_terminate]; exact hp0
+    · exact ⟨hi0, pu_of_none hp0⟩
 
 -- ------------------------------------------------------------------ the parked manager continues
 theorem hi_resumeMgr {s : State} {pk : MgrPark} (hi : LInv (acc s)) (hpu : PU s) (hpk : s.park = some pk) :
     LInv (acc (resumeMgr s pk)) ∧ PU (resumeMgr s pk) := by
   have h1 := acc_unpark_buildNow s pk.peer pk.id pk.ops
-  have hp1 : (buildNow { s with park := none } pk.peer pk.id pk.ops).park = none :=
-    pcore_none_of_pi_eq (pi_buildNow _ _ _ _) (s := { s with park := none }) rfl
+  have hp1 : (buildNow { s with park := none } .mgr pk.peer pk.id pk.ops).park = none :=
+    pcore_none_of_pi_eq (pi_buildNow _ _ _ _ _) (s := { s with park := none }) rfl
   unfold resumeMgr
   simp only
   cases hc : pk.cont with
@@ -629,7 +635,7 @@ theorem hi_resumeMgr {s : State} {pk : MgrPark} (hi : LInv (acc s)) (hpu : PU s)
     have hpn : (acc s).pnew = some (p, id) := by simp [acc, hpk, parkNew, hc]
     have hun : (acc s).punp = none := by simp [acc, hpk, parkUnp, hc]
     obtain ⟨hcl, hnn⟩ := hi.pnewClean _ hpn
-    have hi1 : LInv (acc (buildNow { s with park := none } pk.peer pk.id pk.ops)) := by
+    have hi1 : LInv (acc (buildNow { s with park := none } .mgr pk.peer pk.id pk.ops)) := by
       rw [h1]
       have := hi.clearPnew
       rw [hun] at this
@@ -641,7 +647,7 @@ theorem hi_resumeMgr {s : State} {pk : MgrPark} (hi : LInv (acc s)) (hpu : PU s)
     simp only
     have hpn : (acc s).pnew = none := by simp [acc, hpk, parkNew, hc]
     have hun : (acc s).punp = none := by simp [acc, hpk, parkUnp, hc]
-    have e : acc (buildNow { s with park := none } pk.peer pk.id pk.ops) = acc s := by
+    have e : acc (buildNow { s with park := none } .mgr pk.peer pk.id pk.ops) = acc s := by
       rw [h1]
       cases hx : acc s with
       | mk a b c d e f g h i => rw [hx] at hpn hun; simp only at hpn hun; subst hpn; subst hun; rfl
@@ -656,7 +662,7 @@ theorem hi_resumeMgr {s : State} {pk : MgrPark} (hi : LInv (acc s)) (hpu : PU s)
     obtain ⟨p, t, he, hpush⟩ := hi.unparkPush id hun
     have hpp : p0 = p := by rw [he0] at he; cases he; rfl
     subst hpp
-    have he1 : entOf (buildNow { s with park := none } pk.peer pk.id pk.ops) id = some (p0, .queued, t) := by
+    have he1 : entOf (buildNow { s with park := none } .mgr pk.peer pk.id pk.ops) id = some (p0, .queued, t) := by
       have := congrFun (congrArg Acc.ent h1) id
       exact this.trans he
     obtain ⟨r, hl, hr⟩ := lookup_of_entOf he1
@@ -679,7 +685,7 @@ theorem hi_resumeMgr {s : State} {pk : MgrPark} (hi : LInv (acc s)) (hpu : PU s)
     simp only
     have hpn : (acc s).pnew = none := by simp [acc, hpk, parkNew, hc]
     have hun : (acc s).punp = none := by simp [acc, hpk, parkUnp, hc]
-    have e : acc (buildNow { s with park := none } pk.peer pk.id pk.ops) = acc s := by
+    have e : acc (buildNow { s with park := none } .mgr pk.peer pk.id pk.ops) = acc s := by
       rw [h1]
       cases hx : acc s with
       | mk a b c d e f g h i => rw [hx] at hpn hun; simp only at hpn hun; subst hpn; subst hun; rfl
